@@ -95,8 +95,9 @@ def run_tlc(module, cfg, workers=4, timeout=1800, tag=None, dfs=False, xmx=None,
     env = {"JAVA_TOOL_OPTIONS": jopts}
     if trace:
         env["TRACE"] = trace
+    # -checkpoint 0: the depth-first queue (StateDeque) cannot be checkpointed; TLC would abort after 30 min
     cmd = ["timeout", str(timeout), "tlc", "-workers", str(workers), "-metadir", meta,
-           "-cleanup", "-noGenerateSpecTE"]
+           "-cleanup", "-noGenerateSpecTE", "-checkpoint", "0"]
     if simulate:
         cmd += ["-simulate", simulate]
     if extra:
